@@ -156,13 +156,14 @@ def run_tlc(
     depth_first: bool = False,
     simulate: Optional[str] = None,
     heap: str = "8g",
+    jvm: Optional[List[str]] = None,
 ) -> TlcResult:
     """Run TLC on module_dir/module.tla with cfg (default module.cfg)."""
     meta = BUILD / "tlc" / (tag or module)
     if meta.exists():
         shutil.rmtree(meta, ignore_errors=True)
     meta.mkdir(parents=True, exist_ok=True)
-    cmd = ["java", f"-Xmx{heap}", "-XX:+UseParallelGC"]
+    cmd = ["java", f"-Xmx{heap}", "-XX:+UseParallelGC"] + (jvm or [])
     if depth_first:
         cmd.append("-Dtlc2.tool.queue.IStateQueue=StateDeque")
     # every spec dir may reference spec/common
@@ -573,6 +574,13 @@ class CheckRun:
         self.assumptions: List[str] = []
         self.notes: List[str] = []
 
+    def mark(self, name: str) -> None:
+        """Record wall-clock time since the previous mark under `name` (evidence: coverage.phases)."""
+        now = time.time()
+        last = getattr(self, "_last_mark", self.t0)
+        self.cov.setdefault("phases", []).append({"phase": name, "wall_s": round(now - last, 1)})
+        self._last_mark = now
+
     # -- coverage helpers
     def add_tlc(self, name: str, res: TlcResult) -> None:
         self.cov["states"] += res.distinct
@@ -746,12 +754,19 @@ def sim_behaviours(spec_dir: Path, module: str, cfg: str, n: int, depth: int, se
     d.mkdir(parents=True, exist_ok=True)
     res = run_tlc(spec_dir, module, cfg, workers=1, simulate=f"file={d}/tr,num={n}", extra=["-depth", str(depth), "-seed", str(seed)], tag=f"{tag}-sim", timeout=1800)
     out = []
+    pat = re.compile(r"/\\ " + var + r" = (.*?)(?=\n/\\ |\n\n|\n=+|\Z)", re.S)
     for f in sorted(d.iterdir()):
-        steps = parse_sim_file(f)
-        if steps:
-            v = steps[-1][1].get(var)
-            if v:
-                out.append(v)
+        text = f.read_text()
+        # only the value of `var` in the LAST state is needed (it is a history variable)
+        k = text.rfind("/\\ " + var + " = ")
+        if k < 0:
+            continue
+        m = pat.match(text, k)
+        if not m:
+            continue
+        v = parse_tla(m.group(1).strip())
+        if v:
+            out.append(v)
     shutil.rmtree(d, ignore_errors=True)
     return out, res
 
